@@ -38,14 +38,23 @@ WouldFault(L, bd) ==
     \/ (n0 >= 1 /\ \E perm \in DOMAIN L[n0 + 1] : \E i0 \in IMax(0, n0 - MaxSize(bd))..(n0 - 1) :
                        LET sub == DelStd(perm, i0) IN sub \notin DOMAIN L[n0] \/ L[n0][sub] = Compacted)
 
+\* the end values recorded for perm (a member of the last level) while the next level is built
+GoodIns(L, bd, perm) == {v \in ValidIns(L, bd, perm) : InsRight(perm, v) \notin {e \in bd.elems : Len(e) = Len(L)}}
 AppendClassical(L, bd) ==
     LET np1 == Len(L)                                           \* number of the level being built
         last == L[np1]
-        small == {e \in bd.elems : Len(e) = np1}
-        good == [perm \in DOMAIN last |-> {v \in ValidIns(L, bd, perm) : InsRight(perm, v) \notin small}]
+        good == [perm \in DOMAIN last |-> GoodIns(L, bd, perm)]
         newdom == UNION {{InsRight(perm, v) : v \in good[perm]} : perm \in DOMAIN last}
     IN Append([L EXCEPT ![np1] = [perm \in DOMAIN last |-> last[perm] \cup good[perm]]],
               [q \in newdom |-> {}])
+\* The build of the next level abandoned (an exception passed through it) after the members in S of the last level
+\* had been extended: their end values are recorded, the unfinished level itself was a local and is lost.
+PartialClassical(L, bd, S) ==
+    [L EXCEPT ![Len(L)] = [perm \in DOMAIN L[Len(L)] |-> IF perm \in S THEN L[Len(L)][perm] \cup GoodIns(L, bd, perm) ELSE L[Len(L)][perm]]]
+\* a wrong design (refuted by C02_AvCache's LevelsExact): the level is registered before it is filled, so the abandoned
+\* build leaves the part derived from S behind as if it were the whole level
+EarlyAppendClassical(L, bd, S) ==
+    Append(PartialClassical(L, bd, S), [q \in UNION {{InsRight(perm, v) : v \in GoodIns(L, bd, perm)} : perm \in S} |-> {}])
 AppendMesh(L, bd) == Append(L, [q \in ClassLevel(bd, Len(L)) |-> Compacted])   \* the mesh path filters Perms(n)
 
 RECURSIVE BuildTo(_, _, _)
